@@ -266,18 +266,21 @@ TypeOK == /\ DOMAIN hist.recs = (hist.tail + 1)..hist.head
           /\ bufN >= 0 /\ hist.tail >= 0
 
 (* the disk layer serves exactly the state it is labelled with *)
-ViewIsRoot == View(Cur) = disk.root
+ViewIsRootIn(s) == View(s) = s.disk.root
+ViewIsRoot == ViewIsRootIn(Cur)
 
 (* ids: persistent id + transitions in the buffer = id of the disk layer; the freezer     *)
 (* ends exactly at the disk layer and never starts above the persistent state             *)
-Aligned == /\ kv.pid + bufN = disk.id
-           /\ hist.head = disk.id
-           /\ hist.tail <= kv.pid
+AlignedIn(s) == /\ s.kv.pid + s.bufN = s.disk.id
+                /\ s.hist.head = s.disk.id
+                /\ s.hist.tail <= s.kv.pid
+Aligned == AlignedIn(Cur)
 
 (* histories link up, end in the disk layer's state, and reverse correctly *)
-HistChain == \A i \in DOMAIN hist.recs :
-               /\ hist.recs[i].root = CanonAt(i)
-               /\ Over(hist.recs[i].root, hist.recs[i].prev) = hist.recs[i].parent
+HistChainIn(s) == \A i \in DOMAIN s.hist.recs :
+               /\ s.hist.recs[i].root = (IF i = s.hist.head THEN s.disk.root ELSE s.hist.recs[i + 1].parent)
+               /\ Over(s.hist.recs[i].root, s.hist.recs[i].prev) = s.hist.recs[i].parent
+HistChain == HistChainIn(Cur)
 
 (* the key-value store holds the canonical state of the persistent id *)
 PersistedIsCanon == kv.pid >= hist.tail => kv.world = CanonAt(kv.pid)
